@@ -4,7 +4,7 @@ set -u
 P=$1; PROP=$2; TIER=${3:-quick}
 D=$(mktemp -d /var/tmp/mscript-seed.XXXXXX)
 rsync -a --exclude target --exclude .git /repo/ $D/
-( cd $D && git init -q . && git apply --unsafe-paths $P ) || { echo "patch does not apply"; rm -rf $D; exit 3; }
+( cd $D && git init -q . && ( git apply --unsafe-paths $P 2>/dev/null || patch -p1 -s -F3 --no-backup-if-mismatch < $P ) ) || { echo "patch does not apply"; rm -rf $D; exit 3; }
 VERIF_REPO=$D VERIF_SELFTEST=1 /verif/vcheck check $PROP --tier $TIER | grep -v conda
 rc=${PIPESTATUS[0]}
 rm -rf $D
